@@ -142,20 +142,40 @@ Queries == [terms : {<<1>>, <<2>>, <<1, 2>>}, single : {FALSE}, any : BOOLEAN, n
 SearchInputs == [lines : SeqsUpTo(LineT, N), q : Queries]
 
 -----------------------------------------------------------------------------
-(* (4) LogFileOutput.get_after.  Time = year (small integer), day of year   *)
-(* (1..365; the sought year is not a leap year when the format has no       *)
-(* year), slot within the day (0..K-1, rendered order-preservingly).        *)
+(* (4) LogFileOutput.get_after.  Time = calendar date (year, month, day,     *)
+(* real month lengths, Gregorian leap rule) and a slot within the day       *)
+(* (0..K-1, rendered order-preservingly).  A line of a year-less format     *)
+(* carries month, day and slot only (y = 0).                                *)
 K == 3
-Key(t) == (t.y * 400 + t.d) * K + t.s
+Leap(y) == y % 4 = 0 /\ (y % 100 # 0 \/ y % 400 = 0)
+MonthLen(mo, y) == IF mo = 2 THEN (IF Leap(y) THEN 29 ELSE 28) ELSE IF mo \in {4, 6, 9, 11} THEN 30 ELSE 31
+RECURSIVE DaysBefore(_, _)
+DaysBefore(mo, y) == IF mo = 1 THEN 0 ELSE DaysBefore(mo - 1, y) + MonthLen(mo - 1, y)
+LeapsBefore(y) == ((y - 1) \div 4) - ((y - 1) \div 100) + ((y - 1) \div 400)
+(* day number of a date = proleptic Gregorian ordinal (1 January of year 1 = 1) *)
+AbsDay(t) == 365 * (t.y - 1) + LeapsBefore(t.y) + DaysBefore(t.mo, t.y) + t.d
+ValidDate(t) == t.mo \in 1..12 /\ t.d \in 1..MonthLen(t.mo, t.y)
+Key(t) == AbsDay(t) * K + t.s
+At(y, ln) == [y |-> y, mo |-> ln.mo, d |-> ln.d, s |-> ln.s]
 
-(* the documented year inference: assume the sought year; more than 330     *)
-(* days ahead -> previous year; more than 330 days behind -> next year      *)
+(* the year inference for a year-less stamp: the stamp denotes its month /   *)
+(* day / time in a CALENDAR year - the sought year, unless that moment is    *)
+(* more than 330 days ahead of the sought time (then the previous year:      *)
+(* "timestamp in January and log in December, move log to previous year")    *)
+(* or more than 330 days behind it (then the next year)                      *)
 Eff(ln, T, hy) ==
-    IF hy THEN [y |-> ln.y, d |-> ln.d, s |-> ln.s]
-    ELSE LET delta == (ln.d - T.d) * K + (ln.s - T.s) IN
-         [y |-> IF delta > 330 * K THEN T.y - 1 ELSE IF (0 - delta) > 330 * K THEN T.y + 1 ELSE T.y,
-          d |-> ln.d, s |-> ln.s]
+    IF hy THEN At(ln.y, ln)
+    ELSE LET delta == (AbsDay(At(T.y, ln)) - AbsDay(T)) * K + (ln.s - T.s) IN
+         At(IF delta > 330 * K THEN T.y - 1 ELSE IF (0 - delta) > 330 * K THEN T.y + 1 ELSE T.y, ln)
 AtOrAfter(ln, T, hy) == Key(Eff(ln, T, hy)) >= Key(T)
+
+(* the logs the property quantifies over: valid dates of the format; a       *)
+(* year-less stamp is never 29 February                                      *)
+AdmitsLog(in) ==
+    /\ ValidDate(in.T)
+    /\ \A i \in DOMAIN in.lines : in.lines[i].has =>
+         IF in.hy THEN ValidDate(in.lines[i])
+         ELSE ~(in.lines[i].mo = 2 /\ in.lines[i].d = 29) /\ ValidDate(At(in.T.y, in.lines[i]))
 
 Used(in, i) == in.filt => in.lines[i].m          \* with a search string only matching lines are used
 PrevStamp(in, i) ==                                \* closest used, time-stamped line before i (0 = none)
@@ -168,24 +188,30 @@ InAfter(in, i) ==
 (* precisely the time-stamped lines at or after T plus their continuations  *)
 AfterRef(in) == SelectSeq(Idx(in.lines), LAMBDA i : InAfter(in, i))
 
-Ln(has, y, d, s, m) == [has |-> has, y |-> y, d |-> d, s |-> s, m |-> m]
-T0 == [y |-> 2, d |-> 100, s |-> 1]
-AfterLines(ms) == {Ln(FALSE, 0, 0, 0, m) : m \in ms} \cup {Ln(TRUE, 2, 100, s, m) : s \in 0..2, m \in ms}
+Ln(has, y, mo, d, s, m) == [has |-> has, y |-> y, mo |-> mo, d |-> d, s |-> s, m |-> m]
+NoStamp(m) == Ln(FALSE, 0, 0, 0, 0, m)
+T0 == [y |-> 2021, mo |-> 4, d |-> 10, s |-> 1]
+AfterLines(ms) == {NoStamp(m) : m \in ms} \cup {Ln(TRUE, 2021, 4, 10, s, m) : s \in 0..2, m \in ms}
 AfterInputs ==
     [lines : SeqsUpTo(AfterLines({TRUE}), N), T : {T0}, hy : {TRUE}, filt : {FALSE}]
     \cup [lines : SeqsUpTo(AfterLines(BOOLEAN), N - 1), T : {T0}, hy : {TRUE}, filt : {TRUE}]
 
 (* year inference: one time-stamped line and its continuation, on a grid of *)
-(* days around both ends of the year and around the 330-day threshold       *)
-Days    == IF Deep THEN {1, 2, 20, 34, 35, 36, 59, 60, 200, 330, 331, 332, 333, 345, 364, 365}
-                   ELSE {1, 2, 20, 34, 35, 36, 200, 330, 331, 332, 345, 364, 365}
-DaysY   == {1, 35, 331, 365}
+(* dates around both ends of the year and around the 330-day threshold      *)
+(* (1 Jan + 330 d = 27 Nov, 26 Nov in a leap year; 31 Dec - 330 d = 4 Feb,  *)
+(* 5 Feb in a leap year), for a sought year before, in and after a leap year *)
+Days    == {<<1, 1>>, <<1, 2>>, <<1, 20>>, <<2, 3>>, <<2, 4>>, <<2, 5>>, <<2, 6>>, <<2, 28>>, <<3, 1>>, <<7, 19>>,
+            <<11, 25>>, <<11, 26>>, <<11, 27>>, <<11, 28>>, <<11, 29>>, <<12, 11>>, <<12, 30>>, <<12, 31>>}
+TDays   == IF Deep THEN Days
+           ELSE {<<1, 1>>, <<1, 2>>, <<1, 20>>, <<2, 4>>, <<2, 5>>, <<7, 19>>, <<11, 27>>, <<12, 11>>, <<12, 30>>, <<12, 31>>}
+TYears  == {2019, 2020, 2021}
+DaysY   == {<<1, 1>>, <<2, 4>>, <<11, 27>>, <<12, 31>>}
 YearInputs ==
-    {[lines |-> <<Ln(TRUE, 0, d, s, TRUE), Ln(FALSE, 0, 0, 0, TRUE)>>, T |-> [y |-> 2, d |-> td, s |-> ts],
-      hy |-> FALSE, filt |-> FALSE] : d \in Days, s \in 0..2, td \in Days, ts \in 0..1}
+    {[lines |-> <<Ln(TRUE, 0, dd[1], dd[2], s, TRUE), NoStamp(TRUE)>>, T |-> [y |-> ty, mo |-> td[1], d |-> td[2], s |-> ts],
+      hy |-> FALSE, filt |-> FALSE] : dd \in Days, s \in 0..2, td \in TDays, ts \in 0..1, ty \in TYears}
     \cup
-    {[lines |-> <<Ln(TRUE, y, d, s, TRUE), Ln(FALSE, 0, 0, 0, TRUE)>>, T |-> [y |-> 2, d |-> td, s |-> 1],
-      hy |-> TRUE, filt |-> FALSE] : y \in 1..3, d \in DaysY, s \in 0..2, td \in DaysY}
+    {[lines |-> <<Ln(TRUE, y, dd[1], dd[2], s, TRUE), NoStamp(TRUE)>>, T |-> [y |-> 2020, mo |-> td[1], d |-> td[2], s |-> 1],
+      hy |-> TRUE, filt |-> FALSE] : y \in 2019..2021, dd \in DaysY, s \in 0..2, td \in DaysY}
 
 -----------------------------------------------------------------------------
 Inputs == CASE Fam = "cmd" -> CmdInputs
@@ -255,11 +281,22 @@ SearchMonotone ==
         /\ \A i, j \in DOMAIN acc : i < j => acc[i] < acc[j]
         /\ Len(acc) = (IF inp.q.num < 0 \/ inp.q.num > Len(MatchIdx(inp)) THEN Len(MatchIdx(inp)) ELSE inp.q.num)
 AfterExact == (Fam \in {"after", "year"} /\ done) => acc = AfterRef(inp)
-(* a year-less stamp is never placed further than 330 days (+ a day) away   *)
+(* a year-less stamp is never placed further than 330 days (+ a day) away,  *)
+(* and a stamp moved to the previous (next) calendar year lies before       *)
+(* (after) the sought time - 31 December really is before 1 January 00:30   *)
 YearNear ==
     (Fam = "year" /\ ~inp.hy) =>
         LET e == Eff(inp.lines[1], inp.T, FALSE)
-            dist == (e.y - inp.T.y) * 365 + (e.d - inp.T.d) IN
-        dist <= 331 /\ (0 - dist) <= 331
+            dist == AbsDay(e) - AbsDay(inp.T) IN
+        /\ AdmitsLog(inp)
+        /\ dist <= 331 /\ (0 - dist) <= 331
+        /\ e.y < inp.T.y => Key(e) < Key(inp.T)
+        /\ e.y > inp.T.y => Key(e) > Key(inp.T)
+(* the calendar of the model: month lengths add up, the day numbering is continuous *)
+CalendarOK ==
+    \A y \in 2019..2021 :
+        /\ DaysBefore(12, y) + 31 = (IF Leap(y) THEN 366 ELSE 365)
+        /\ AbsDay([y |-> y + 1, mo |-> 1, d |-> 1]) = AbsDay([y |-> y, mo |-> 12, d |-> 31]) + 1
+        /\ AbsDay([y |-> 2020, mo |-> 3, d |-> 1]) = AbsDay([y |-> 2020, mo |-> 2, d |-> 29]) + 1
 
 =============================================================================
